@@ -5,9 +5,10 @@ import grammar
 from props import parse_common as pc
 
 LEVEL = 'proof'
-MODULES = ['Pysmi.Props.C11', 'Pysmi.Props.C11Lines', 'Pysmi.Pins.Lex']
-LAKE_TARGETS = ['Pysmi.Props.C11', 'Pysmi.Props.C11Lines', 'Pysmi.Pins.Lex']
+MODULES = ['Pysmi.Props.C11', 'Pysmi.Props.C11Lines', 'Pysmi.Pins.Lex', 'Pysmi.Pins.SkelC11']
+LAKE_TARGETS = ['Pysmi.Props.C11', 'Pysmi.Props.C11Lines', 'Pysmi.Pins.Lex', 'Pysmi.Pins.SkelC11']
 THEOREMS = [
+    'Pysmi.Pins.SkelC11.pin_lexerNumber',
     'Pysmi.Lexer.C11_step_progress',
     'Pysmi.Lexer.C11_lexer_terminates',
     'Pysmi.Lexer.C11_number_class',
